@@ -49,22 +49,22 @@ def gen_stub_case(r, i):
     fail_rate = r.choice([0.0, 0.15, 0.3, 0.5])
     for k in range(r.randrange(1, 5)):
         res, contrib = {}, {}
-        cross = r.random() < 0.45
+        cross = r.random() < 0.55          # overrides finalize(); a plain rule stores nothing and inherits finalize()
         for f in files:
             x = r.random()
             if x < fail_rate:
                 res[f] = {"fail": r.choice(VALUE_FAMILY) if r.random() < 0.3 else r.choice(OTHERS)}
             elif x < fail_rate + 0.5:
                 res[f] = {"ok": [r.randrange(1, 40) for _ in range(r.randrange(0, 3))]}
-            if cross and r.random() < 0.7:
+            if cross and r.random() < 0.6:
                 contrib[f] = [r.randrange(1, 9) for _ in range(r.randrange(1, 3))]
-        y = r.random()
+        y = r.random() if cross else 1.0
         fin = ["echo"]
         if y < 0.08:
             fin = ["fail", r.choice(list(EXC))]
         elif y < 0.16:
             fin = ["failif", r.randrange(1, 9), r.choice(list(EXC))]
-        stubs.append({"id": f"stub.r{k}", "res": res, "contrib": contrib, "fin": fin})
+        stubs.append({"id": f"stub.r{k}", "res": res, "contrib": contrib, "fin": fin, "cross": cross})
     return {"kind": "stub", "i": i, "mode": mode, "files": files, "stubs": stubs}
 
 
@@ -108,7 +108,24 @@ def _make_stub_class():
                 raise EXC[fin[2]]()
             return [Violation(rule_id=self.spec["id"], file_path=f, line=n, column=0, message="stub-final") for f, n in store]
 
-    return Stub
+    class PlainStub(Stub):
+        """a per-file rule: finalize() is the inherited one, nothing is stored"""
+
+        def check(self, context):
+            name = Path(context.file_path).name
+            res = self.spec["res"].get(name)
+            if res is None:
+                return []
+            if "fail" in res:
+                raise EXC[res["fail"]]()
+            return [Violation(rule_id=self.spec["id"], file_path=name, line=n, column=0, message="stub") for n in res["ok"]]
+
+        finalize = BaseLintRule.finalize
+
+    def make(spec):
+        return Stub(spec) if spec.get("cross", True) else PlainStub(spec)
+
+    return make
 
 
 def _read_log(path: Path):
@@ -182,7 +199,7 @@ def coq_stub_case(case, obs) -> str:
         fin = {"echo": "FEcho", "fail": "(FFail %s)", "failif": "(FFailIf %s %s)"}[s["fin"][0]]
         if s["fin"][0] != "echo":
             fin = fin % tuple(s["fin"][1:])
-        stubs.append(f'{{| s_id := "{s["id"]}"; s_res := {res}; s_contrib := {con}; s_fin := {fin} |}}')
+        stubs.append(f'{{| s_id := "{s["id"]}"; s_res := {res}; s_contrib := {con}; s_fin := {fin}; s_cross := {coq.coq_bool(s.get("cross", True))} |}}')
     crashed = "None" if obs["crashed"] is None else f'(Some "{obs["crashed"]}")'
     viols = coq.coq_list([f'("{r}", "{f}", {n})' for r, f, n in obs["viols"]])
     log = coq.coq_list([f'("{w}", "{r}", "{f}", "{e}")' for w, r, f, e in obs["log"]])
